@@ -67,6 +67,21 @@ def run_case(case):
             counters["resumed_histories_judged"] += 1
             recorded.judge_history(rr, where + f" [resumed from iteration {it} via {'bytes' if it % 2 else 'dict'}]", viol, counters, mutated=None)
             resumed_from.append(it)
+    if cfg["sampler"] in ("smc", "emcee_smc") and base.payloads:
+        # the job ended (or was killed) after the run's closing checkpoint was written: continuing from that checkpoint has
+        # nothing left to do but hand back the result - and the same record of the run, population for population
+        last = base.payloads[-1]
+        for label, src in (("bytes", last["bytes"]), ("dict", last["state"])):
+            rr = recorded.record(cfg, rng=np.random.default_rng(4242), resume_from=src, with_callback=False)
+            if rr.exc is not None:
+                viol.append({"mech": "C18/continuation-from-the-closing-checkpoint-raises", "detail": f"{where} [{label}]: {type(rr.exc).__name__}: {str(rr.exc)[:200]}"})
+                continue
+            counters["histories_continued_from_the_closing_checkpoint"] += 1
+            rr.resumed_from_iteration = T
+            recorded.judge_history(rr, where + f" [continued from the closing checkpoint via {label}]", viol, counters, mutated=None)
+            dd = recorded.same_runs(base, rr, what=("beta", "pops", "series"), tol=1e-6 if cfg["xp"] == "torch" else 0.0) if cfg["sampler"] == "smc" else []
+            if dd:
+                viol.append({"mech": "C18/history-after-continuation-from-the-closing-checkpoint-differs", "detail": f"{where} [{label}]: {dd[:3]}"})
     if cfg["sampler"] == "smc" and T >= 2:
         # interrupted (an Exception or a Ctrl-C arriving inside the user's likelihood) and continued from whatever the run left
         # in its checkpoint file and in memory: the finished history must still be a faithful record
